@@ -57,7 +57,7 @@ func checkC13(r *evid.Run) {
 	// histories that mix the validating operations (verify) with walks/outputs of trees whose names are
 	// not valid path elements: what one operation switches on must not leak into a later one
 	// (MC_C13_verify: plain names added in any order, a failing verify in between: what it walks it must not reorder)
-	for _, cfg := range []string{"MC_C13_fsops.cfg", "MC_C13_verify.cfg"} {
+	for _, cfg := range []string{"MC_C13_fsops.cfg", "MC_C13_verify.cfg", "MC_C13_massive.cfg"} {
 		runApiModel(r, cfg, timeout, func(a *apiState) {
 			if len(a.Hist) == 0 {
 				return
